@@ -73,53 +73,26 @@ def run(repo, rep, tier):
     kcls = repo.cls('ssh2_kex', 'SSH2_Kex')
     pcls = repo.cls('ssh2_kexparty', 'SSH2_KexParty')
     rep.saw(kw), rep.saw(kp)
-    ws = write_seq(kw)
-    rs = read_seq(kp)
-    rep.check('siblings', 'KEXINIT: writer and parser perform 13 codec operations each', len(ws) == 13 and len(rs) == 13, kw, 'KEXINIT writer has %d operations, parser %d' % (len(ws), len(rs)))
-    # field identity through the constructor (C01 slot chains)
-    kinit, kp2f, kf2g = ctor_fields(kcls)
-    pinit, pp2f, pf2g = ctor_fields(pcls)
-    ctor = [n for n in walk_no_nested(kp) if isinstance(n, ast.Call) and isinstance(n.func, ast.Name) and n.func.id == 'cls']
-    parties = {n.targets[0].id: n.value for n in kp.body if isinstance(n, ast.Assign) and isinstance(n.value, ast.Call) and call_name(n.value) == 'SSH2_KexParty'}
-    kb = bind_args(ctor[0], kinit, skip_self=True) if ctor else {}
-
-    def accessor_of(var):
-        for par, a in kb.items():
-            if isinstance(a, ast.Name) and a.id == var:
-                f = kp2f.get(par)
-                g = kf2g.get(f, [])
-                return g[0] if g else ('<field %s>' % f)
-        for pv, pcall in parties.items():
-            pb = bind_args(pcall, pinit, skip_self=True)
-            for par, a in pb.items():
-                if isinstance(a, ast.Name) and a.id == var:
-                    g = pf2g.get(pp2f.get(par), [])
-                    for kpar, ka in kb.items():
-                        if isinstance(ka, ast.Name) and ka.id == pv:
-                            kg = kf2g.get(kp2f.get(kpar), [])
-                            return '%s.%s' % (kg[0], g[0]) if kg and g else None
-        return None
-
-    def write_field(arg):
-        t = unparse(arg)
-        if t.startswith('self.__'):
-            f = t[len('self.'):]
-            g = kf2g.get(f, [])
-            return g[0] if g else '<field %s>' % f
-        return t[len('self.'):] if t.startswith('self.') else t
+    # parse() is interpreted on a stream of read tokens and write() on the object parse() built (props/_messages.py): the writer must emit, position by
+    # position, the token the parser read there, with the paired codec -- whatever the two methods look like (accessors or private fields, loops, slices)
+    from props import _messages
+    obj, reads, holder = _messages.parse_model(repo, 'ssh2_kex', 'SSH2_Kex', [('ssh2_kexparty', 'SSH2_KexParty')])
+    writes = _messages.write_model(repo, 'ssh2_kex', 'SSH2_Kex', obj, holder)
+    rep.check('siblings', 'KEXINIT: writer and parser perform 13 codec operations each', len(writes) == 13 and len(reads) == 13, kw, 'KEXINIT writer has %d operations, parser %d' % (len(writes), len(reads)))
     table = []
-    for i, ((wop, warg, wst), (rop, rvar, rarg, rst)) in enumerate(zip(ws, rs)):
-        wf = write_field(warg)
-        rf = accessor_of(rvar)
-        table.append({'i': i, 'write': '%s(%s)' % (wop, wf), 'read': '%s -> %s' % (rop, rf)})
-        rep.check('siblings', 'KEXINIT op %d: %s pairs with %s' % (i, wop, rop), PAIR.get(wop) == rop, wst, 'KEXINIT field %d is written with %s but read with %s' % (i, wop, rop))
-        rep.check('siblings', 'KEXINIT op %d: same field on both sides (%s)' % (i, wf), wf == rf, wst, 'KEXINIT position %d: writer emits %s, parser stores it as %s' % (i, wf, rf))
+    for i, ((wop, wval, wnode), (rop, rsize, rtok)) in enumerate(zip(writes, reads)):
+        rep.evals()
+        table.append({'i': i, 'write': '%s(%r)' % (wop, wval), 'read': '%s -> %r' % (rop, rtok)})
+        rep.check('siblings', 'KEXINIT op %d: %s pairs with %s' % (i, wop, rop), _messages.PAIR.get(wop) == rop, wnode, 'KEXINIT field %d is written with %s but read with %s' % (i, wop, rop), stmt='KEXINIT position %d codec' % i)
+        rep.check('siblings', 'KEXINIT op %d: the writer emits what the parser stored from that position' % i, wval == rtok, wnode, 'KEXINIT position %d: writer emits %r, the parser read %r there' % (i, wval, rtok), stmt='KEXINIT position %d field' % i)
     rep.samples.append({'rule': 'siblings', 'message': 'KEXINIT', 'ops': table})
-    if rs:
-        rep.check('siblings', 'KEXINIT cookie is 16 bytes', rs[0][0] == 'read' and rs[0][2] is not None and unparse(rs[0][2]) == '16', rs[0][3], 'cookie read size changed')
-    order = [f for f in ['cookie'] + SSH2_SLOTS + ['follows', 'unused']]
-    got = [write_field(a) for op, a, st in ws]
-    rep.check('siblings', 'KEXINIT field order is RFC 4253 7.1', got == order, kw, 'writer field order: %s' % got)
+    rep.check('siblings', 'KEXINIT cookie is 16 bytes', bool(reads) and reads[0][0] == 'read' and reads[0][1] == 16, kp, 'cookie read size changed')
+    order = ['cookie'] + SSH2_SLOTS + ['follows', 'unused']
+    got = []
+    for a in order:
+        v = _messages.accessor(holder, obj, a)
+        got.append([k for k, (rop, rsize, rtok) in enumerate(reads) if rtok == v])
+    rep.check('siblings', 'KEXINIT field order is RFC 4253 7.1', got == [[k] for k in range(13)], kp, 'accessors in RFC order yield packet positions %s' % got)
     # third sibling: DHEat.generate_kex (body without cookie)
     gk = repo.func('dheat', 'DHEat.generate_kex')
     gs = write_seq(gk)
@@ -139,29 +112,19 @@ def run(repo, rep, tier):
     pw = repo.func('ssh1_publickeymessage', 'SSH1_PublicKeyMessage.write')
     pp = repo.func('ssh1_publickeymessage', 'SSH1_PublicKeyMessage.parse')
     rep.saw(pw), rep.saw(pp)
-    ws1 = write_seq(pw)
-    rs1 = read_seq(pp)
-    wops = [op for op, a, st in ws1]
-    rops = [op for op, v, a, st in rs1]
+    obj1, reads1, holder1 = _messages.parse_model(repo, 'ssh1_publickeymessage', 'SSH1_PublicKeyMessage')
+    writes1 = _messages.write_model(repo, 'ssh1_publickeymessage', 'SSH1_PublicKeyMessage', obj1, holder1)
+    wops = [op for op, v, n in writes1]
+    rops = [op for op, sz, t in reads1]
     want_w = ['write', 'write_int', 'write_mpint1', 'write_mpint1', 'write_int', 'write_mpint1', 'write_mpint1', 'write_int', 'write_int', 'write_int']
     rep.check('siblings', 'SSH-1 key message writer sequence', wops == want_w, pw, 'SSH-1 writer ops: %s' % wops)
-    rep.check('siblings', 'SSH-1 key message parser mirrors the writer', rops == [PAIR[o] for o in want_w], pp, 'SSH-1 parser ops: %s' % rops)
-    wf1 = [unparse(a).replace('self.', '') for op, a, st in ws1]
+    rep.check('siblings', 'SSH-1 key message parser mirrors the writer', rops == [_messages.PAIR[o] for o in want_w], pp, 'SSH-1 parser ops: %s' % rops)
+    rep.check('siblings', 'SSH-1 writer emits, position by position, what the parser stored', [v for op, v, n in writes1] == [t for op, sz, t in reads1], pw,
+              'SSH-1 writer emits %s, the parser read %s' % ([v for op, v, n in writes1], [t for op, sz, t in reads1]))
     want_f = ['cookie', 'server_key_bits', 'server_key_public_exponent', 'server_key_public_modulus', 'host_key_bits', 'host_key_public_exponent', 'host_key_public_modulus', 'protocol_flags', 'supported_ciphers_mask', 'supported_authentications_mask']
-    rep.check('siblings', 'SSH-1 writer field order', wf1 == want_f, pw, 'SSH-1 writer fields: %s' % wf1)
-    # parser: tuples (bits, exponent, modulus) in read order; getters index them 0/1/2
-    c1 = repo.cls('ssh1_publickeymessage', 'SSH1_PublicKeyMessage')
-    for name, idx, field in (('server_key_bits', 0, '__server_key'), ('server_key_public_exponent', 1, '__server_key'), ('server_key_public_modulus', 2, '__server_key'),
-                             ('host_key_bits', 0, '__host_key'), ('host_key_public_exponent', 1, '__host_key'), ('host_key_public_modulus', 2, '__host_key')):
-        f = repo.func('ssh1_publickeymessage', 'SSH1_PublicKeyMessage.' + name)
-        r = [x for x in walk_no_nested(f) if isinstance(x, ast.Return)]
-        rep.check('siblings', 'SSH-1 getter %s reads component %d of %s' % (name, idx, field), len(r) == 1 and unparse(r[0].value) == 'self.%s[%d]' % (field, idx), f, 'getter %s changed' % name)
-    tups = {unparse(n.targets[0]): [unparse(e) for e in n.value.elts] for n in pp.body if isinstance(n, ast.Assign) and isinstance(n.value, ast.Tuple)}
-    rv = [v for op, v, a, st in rs1]
-    ok = len(rv) == 10 and tups.get('skey') == rv[1:4] and tups.get('hkey') == rv[4:7]
-    rep.check('siblings', 'SSH-1 parser groups (bits, exponent, modulus) in read order', ok, pp, 'SSH-1 tuple grouping changed: %s' % tups)
-    if rs1:
-        rep.check('siblings', 'SSH-1 cookie is 8 bytes', unparse(rs1[0][2]) == '8', rs1[0][3], 'SSH-1 cookie size changed')
+    gotf = [_messages.accessor(holder1, obj1, a) for a in want_f]
+    rep.check('siblings', 'SSH-1 accessors name the fields in packet order', gotf == [t for op, sz, t in reads1], pp, 'SSH-1 accessors %s yield %s, the packet is %s' % (want_f, gotf, [t for op, sz, t in reads1]))
+    rep.check('siblings', 'SSH-1 cookie is 8 bytes', bool(reads1) and reads1[0][1] == 8, pp, 'SSH-1 cookie size changed')
 
     # ---- rule 2: primitive pairs -------------------------------------------------------------------------------------------
     def F(mod, q):
